@@ -370,6 +370,40 @@ def euler2d_records(rnd, tier):
                 fy = call(sw(L), sw(R), 1)
                 worst_i = comp_ulps([fy[0], fy[2], fy[1], fy[3]], [F(x) for x in fx], scm) if all(map(math.isfinite, fx + fy)) else core.ULP_CAP
                 rec.update(consist=worst_c, mirror=worst_m, iso=worst_i)
+                # upwinding in 2D (hlle): both states supersonic along the face normal in the same direction, any tangential
+                # velocity, wide density / sound-speed contrasts; premise decided with the exactly weighted Roe average (margin 1e-6)
+                if name == "hlle":
+                    worst_u = 0
+                    for axis in (0, 1):
+                        sgn_ = rnd.choice([1.0, -1.0])
+
+                        def sup():
+                            rho = 10.0 ** rnd.uniform(-2, 2)
+                            p = 10.0 ** rnd.uniform(-2, 2)
+                            c = math.sqrt(gam * p / rho)
+                            v = [0.0, 0.0]
+                            v[axis] = sgn_ * rnd.uniform(1.05, 3.0) * c
+                            v[1 - axis] = rnd.uniform(-2, 2) * c
+                            return [rho, v, p]
+                        A, B = sup(), sup()
+                        w = math.sqrt(B[0] / A[0])
+                        t = 1.0 / (1.0 + w)
+                        Hs = [gam * W[2] / ((gam - 1) * W[0]) + (W[1][0] ** 2 + W[1][1] ** 2) / 2 for W in (A, B)]
+                        ur = [t * (A[1][j] + w * B[1][j]) for j in (0, 1)]
+                        c2 = (gam - 1) * (t * (Hs[0] + w * Hs[1]) - (ur[0] ** 2 + ur[1] ** 2) / 2)
+                        if not (c2 > 0 and abs(ur[axis]) > math.sqrt(c2) * (1 + 1e-6)):
+                            continue
+                        U = A if sgn_ > 0 else B
+                        rho, (ux, uy), p = F(U[0]), (F(U[1][0]), F(U[1][1])), F(U[2])
+                        un = ux if axis == 0 else uy
+                        H = G * p / ((G - 1) * rho) + (ux * ux + uy * uy) / 2
+                        want = [rho * un, rho * un * ux + (p if axis == 0 else 0), rho * un * uy + (p if axis == 1 else 0), rho * un * H]
+                        cU = math.sqrt(gam * U[2] / U[0])
+                        vm = abs(U[1][0]) + abs(U[1][1]) + cU
+                        scu = [U[0] * vm, U[0] * vm * vm + U[2], U[0] * vm * vm + U[2], U[0] * vm * float(H)]
+                        fu = call(A, B, axis)
+                        worst_u = max(worst_u, comp_ulps(fu, want, scu) if all(map(math.isfinite, fu)) else core.ULP_CAP)
+                    rec["upwind"] = worst_u
             except Exception as ex:
                 rec = dict(kind="raised", what=str(ex)[:100], model="euler2d", name=name)
             recs.append(rec)
